@@ -724,3 +724,58 @@ pub fn stress_c16(ctx: &crate::props::Ctx, i: u64, threads: usize, iters: usize)
     });
     bad.into_inner().unwrap()
 }
+
+/// C16 part 4b: the cross-profile diff over a *systematic* space — every (integer field, boundary
+/// value) cell of base `k`. Any arithmetic that is reachable by one boundary value and only
+/// "works" by wrapping shows up as panic (checked builds) versus value (release).
+pub fn profile_cells(ctx: &crate::props::Ctx, k: u64, out: &mut dyn std::io::Write) {
+    let Some(base) = crate::props::c16_cell_base(ctx, k) else { return };
+    let bytes0 = base.bytes.clone();
+    let crate::props::JobKind::Cells { cells, fields, .. } = crate::props::cells_job(base, false) else { return };
+    let rp = ReaderPlan::default();
+    for (j, (fi, v)) in cells.iter().enumerate() {
+        let e = crate::faults::field_edit(&bytes0, &fields[*fi], *v);
+        let mut bytes = bytes0.clone();
+        bytes.splice(e.off..e.off + e.del, e.ins.iter().copied());
+        let l = catch_unwind(AssertUnwindSafe(|| load(&bytes, Wrapper::Slice, &rp, None, false, false).0));
+        let line = match l {
+            Err(_) => {
+                let (loc, msg) = crate::exec::take_panic_pub();
+                format!("load-panic {} {}", loc.rsplit('/').next().unwrap_or(""), normalise(&msg))
+            }
+            Ok(l) => match l.result {
+                Err(e) => crate::exec::err_class(&e),
+                Ok(f) => {
+                    let map = format::walk(&bytes);
+                    let costs = costs_for(&map, 1 << 18);
+                    let (nl, nf) = (f.num_layers(), f.num_frames());
+                    let mut ops = vec![Op::Meta, Op::Palette, Op::Tags, Op::Slices, Op::Tilesets, Op::ExtFiles, Op::FrameImage(0), Op::FrameImage(1), Op::TilesetImage(0), Op::TileImage(0, 1)];
+                    for la in 0..nl.min(6) {
+                        ops.push(Op::LayerInfo(la));
+                        for fr in 0..nf.min(3) {
+                            ops.push(Op::CelInfo(fr, la));
+                            ops.push(Op::Tilemap(la, fr));
+                        }
+                    }
+                    ops.push(Op::TilemapSweep(0, 0));
+                    ops.push(Op::FrameInfo(nf.saturating_sub(1)));
+                    let mut d = Digest::new();
+                    let mut panics = 0;
+                    for op in &ops {
+                        match exec_out(&f, op, &costs) {
+                            Out::Done(x) => d.u64(x),
+                            Out::Skipped => d.byte(1),
+                            Out::BadDims => d.byte(2),
+                            Out::Panic(s) => {
+                                panics += 1;
+                                d.str(&s)
+                            }
+                        }
+                    }
+                    format!("ok {:016x} panics={}", d.finish(), panics)
+                }
+            },
+        };
+        let _ = writeln!(out, "{}:{} {}", k, j, line);
+    }
+}
